@@ -129,7 +129,8 @@ static void drv_apply(const vop_t *op, jb_t *res)
     case 4: a_begin(0); cstl_array_reset(&A[a[0]]); a_end(); jb_puts(res, ",\"ret\":0"); break;
     case 5: {
         void *b = (void *)&b; int e = 0;
-        a_begin(0); cstl_array_release(&A[a[0]], &b); a_end();
+        a_begin(0); cstl_array_release(&A[a[0]], a[1] ? NULL : &b); a_end();
+        if (a[1]) b = NULL;                                 /* NULL out-parameter: nothing to look at */
         if (b == (void *)EXT[1]) e = 1; else if (b == (void *)EXT[2]) e = 2; else if (b != NULL) e = -1;
         jb_printf(res, ",\"ret\":%d", e);
         break;
@@ -164,7 +165,7 @@ static void drv_opjson(const vop_t *op, jb_t *b)
     case 2: jb_printf(b, "\"op\":\"slice\",\"a\":%d,", a[0]); term_json(b, "beg", a[1]); jb_puts(b, ","); term_json(b, "end", a[2]); jb_printf(b, ",\"s\":%d", a[3]); break;
     case 3: jb_printf(b, "\"op\":\"unslice\",\"s\":%d,\"a\":%d", a[0], a[1]); break;
     case 4: jb_printf(b, "\"op\":\"reset\",\"a\":%d", a[0]); break;
-    case 5: jb_printf(b, "\"op\":\"release\",\"a\":%d", a[0]); break;
+    case 5: jb_printf(b, "\"op\":\"release\",\"a\":%d,\"nob\":%s", a[0], a[1] ? "true" : "false"); break;
     case 6: jb_printf(b, "\"op\":\"at\",\"a\":%d,", a[0]); term_json(b, "i", a[1]); break;
     case 7: jb_printf(b, "\"op\":\"data\",\"a\":%d", a[0]); break;
     case 8: jb_printf(b, "\"op\":\"size\",\"a\":%d", a[0]); break;
@@ -225,7 +226,7 @@ static int drv_enum(vop_t *ops, int max)
                 ADD(2, a, b <= MAXN + 1 ? b : 1000 + (b - MAXN - 2), e <= MAXN + 1 ? e : 1000 + (e - MAXN - 2), s);
             ADD(3, s, a, 0, 0);
         }
-        ADD(4, a, 0, 0, 0); ADD(5, a, 0, 0, 0);
+        ADD(4, a, 0, 0, 0); ADD(5, a, 0, 0, 0); ADD(5, a, 1, 0, 0);
         for (b = 0; b <= MAXN + 3; b++) ADD(6, a, b <= MAXN + 1 ? b : 1000 + (b - MAXN - 2), 0, 0);
         ADD(7, a, 0, 0, 0); ADD(8, a, 0, 0, 0);
     }
@@ -247,7 +248,7 @@ static int drv_random(unsigned long (*rnd)(void), vop_t *op)
     else if (r < 50) { op->k = 2; op->a[0] = a; op->a[1] = tsmall(rnd, MAXN + 1); op->a[2] = tsmall(rnd, MAXN + 1); op->a[3] = s; }
     else if (r < 60) { op->k = 3; op->a[0] = s; op->a[1] = a; }
     else if (r < 68) { op->k = 4; op->a[0] = a; }
-    else if (r < 74) { op->k = 5; op->a[0] = a; }
+    else if (r < 74) { op->k = 5; op->a[0] = a; op->a[1] = rnd() % 3 == 0; }
     else if (r < 90) { op->k = 6; op->a[0] = a; op->a[1] = tsmall(rnd, MAXN + 1); }
     else if (r < 95) { op->k = 7; op->a[0] = a; }
     else { op->k = 8; op->a[0] = a; }
@@ -293,6 +294,30 @@ static int bigprobe(const char *path)
             limbs(o, "nm", nm); fputc(',', o); limbs(o, "ret", sig == 0 ? (uint64_t)(p - buf) : 0);
             fprintf(o, "}\n");
         }
+    }
+    /* indexes whose byte offset wraps around the address space back into (or just before) the view:
+     * (a) a 16-element slice at a non-zero offset of the big one-byte buffer, (b) a 16-element array of 8-byte elements */
+    {
+        static uint64_t small8[16];
+        cstl_array_t a8; int v;
+        cstl_array_init(&a8); cstl_array_set(&a8, small8, 16, 8);
+        cstl_array_slice(&a, 4096, 4096 + 16, &s);
+        for (v = 0; v < 2; v++) {
+            uint64_t wrap[] = { UINT64_MAX, UINT64_MAX - 1, UINT64_MAX - 4095, UINT64_MAX - 4090, (uint64_t)1 << 63, ((uint64_t)1 << 63) + 3,
+                                (uint64_t)1 << 62, (uint64_t)1 << 61, ((uint64_t)1 << 61) + 2, UINT64_MAX / 8 + 1, UINT64_MAX / 8 + 4, 15, 16 };
+            for (k = 0; k < sizeof wrap / sizeof wrap[0]; k++) {
+                int sig; const unsigned char *p = NULL; cstl_array_t *obj = v ? &a8 : &s;
+                const unsigned char *base = v ? (const unsigned char *)small8 : buf; uint64_t esz = v ? 8 : 1, off = v ? 0 : 4096;
+                sig = sigsetjmp(bigjmp, 1);
+                if (sig == 0) p = cstl_array_at(obj, wrap[k]);
+                fprintf(o, "{\"id\":%ld,\"op\":\"atbig\",\"out\":\"%s\",", ++id, sig == 0 ? "ok" : sig == SIGABRT ? "abort" : "segv");
+                limbs(o, "off", off); fputc(',', o); limbs(o, "i", wrap[k]); fputc(',', o);
+                limbs(o, "len", 16); fputc(',', o);
+                limbs(o, "nm", v ? 16 : nm); fputc(',', o); limbs(o, "ret", sig == 0 ? (uint64_t)(p - base) / esz : 0);
+                fprintf(o, "}\n");
+            }
+        }
+        cstl_array_reset(&a8);
     }
     cstl_array_reset(&s); cstl_array_reset(&a);
     fclose(o);
